@@ -369,13 +369,37 @@ def check_held(recipe) -> list[Fail]:
         if h.call({"op": "new", "path": path, "handles": {hn: {"ro": False, "buf": -1}, "idle": {"ro": True, "buf": -1, "plain": True}}}) is None:
             raise HarnessError("helper stalled while constructing a handle")
         held_mode = recipe["held"]
+        other = None
+        if recipe.get("during") == "other_exits":
+            # a third, short-lived process of its own: it has constructed a handle of the library BEFORE the holder's session began and
+            # ends normally (interpreter exit, atexit hooks and all) while the holder is inside - nobody's business but its own
+            ready = os.path.join(d, "ready")
+            code = ("import sys, os, time\n"
+                    "from vf import run as _run\n_run.setup_env()\n"
+                    "from molli.storage import Collection, UkvCollectionBackend\n"
+                    f"c = Collection({path!r}, UkvCollectionBackend, readonly={recipe['abuf'] % 2 == 0}, bufsize=-1)\n"
+                    f"open({ready!r}, 'w').close()\n"
+                    "t0 = time.time()\n"
+                    f"while not os.path.exists({at_file!r}) and time.time() - t0 < 30: time.sleep(0.01)\n")
+            other = subprocess.Popen([sys.executable, "-c", code], env=dict(os.environ), stdout=subprocess.DEVNULL, stderr=subprocess.DEVNULL)
+            t0 = time.time()
+            while not os.path.exists(ready) and time.time() - t0 < 60 and other.poll() is None:
+                time.sleep(0.01)
+            if not os.path.exists(ready):
+                raise HarnessError("the short-lived process never constructed its handle")
         h.send({"op": "session_hold", "h": hn, "mode": held_mode, "key": "heldkey", "val": (b"H" * 33).hex(), "at_file": at_file, "gate_file": gate_file,
-                "during": recipe.get("during"), "idle": "idle"})
+                "during": recipe.get("during") if recipe.get("during") != "other_exits" else None, "idle": "idle"})
         t0 = time.time()
         while not os.path.exists(at_file) and time.time() - t0 < 30:
             time.sleep(0.01)
         if not os.path.exists(at_file):
             raise HarnessError("helper never entered its session")
+        if other is not None:
+            try:
+                other.wait(60)
+            except subprocess.TimeoutExpired:
+                other.kill()
+                raise HarnessError("the short-lived process did not end")
         entered = []
         for mode in ("w", "r"):
             if held_mode == "r" and mode == "r":
@@ -511,7 +535,7 @@ def enum_held(tier, shard, nshards):
             for timeouts in ([0], [1], [2], [0, 1, 2], [3]):
                 if tier == "quick" and timeouts == [3] and abuf:
                     continue
-                for during in (None, "unpickle", "deepcopy"):
+                for during in (None, "unpickle", "deepcopy", "other_exits"):
                     if during and timeouts != [0, 1, 2]:
                         continue
                     if i % nshards == shard:
@@ -689,7 +713,7 @@ LEGS = [
     ),
     Leg(
         "held", check_held, lambda r: (True, [f"holder={'writer' if r['held'] == 'w' else 'reader'}", "timeouts=" + ",".join(str([0, 0.0, 0.05, 0.3][t]) for t in r["timeouts"]), f"holder_copies_an_idle_handle_inside_its_session={r.get('during')}"]), enumerate=enum_held, exhaustive=True, shards={"quick": 8, "thorough": 8},
-        rule="harness-owned overlap: a helper process sits inside a writing (or reading) session while this process asks for sessions with timeout 0, 0.0, 0.05, 0.3: every request that the holder excludes must end in TimeoutError, never inside the session - also when the holder, inside its session, unpickles / deep-copies an idle handle of the same library (no session on the copy); "
+        rule="harness-owned overlap: a helper process sits inside a writing (or reading) session while this process asks for sessions with timeout 0, 0.0, 0.05, 0.3: every request that the holder excludes must end in TimeoutError, never inside the session - also when the holder, inside its session, unpickles / deep-copies an idle handle of the same library (no session on the copy), or when a third process that had constructed a handle earlier exits normally meanwhile; "
              "after the gate opens a session proceeds and the contents are complete",
     ),
     Leg(
